@@ -2,6 +2,7 @@
 import json, os, copy
 import vlib
 from props.c01 import canon, coq_val, T, R
+from props import c01 as _c01
 
 ID = "C04"
 THEOREMS = "Properties/C04.v"
@@ -23,7 +24,7 @@ ASSUMPTIONS = [
     "the code generator (Scala) is not available offline: the tables are hand-built as the property's observe_at allows; ProcedureSpaghetti.go is the only shipped user",
 ]
 RULE = ("cases = scripted archetypes over hand-built MPCalProc tables from one PRNG (VERIF_SEED): 1-3 procedures with 1-2 parameters (by value or by reference: the name of an "
-        "archetype local) and 0-1 locals, bodies that log their variables, write them, write through references, and call / tail-call each other or themselves on a decreasing counter "
+        "archetype local) and 0-1 locals, bodies that log their variables, write them, read and write through references (bound to archetype locals or to non-local resources of the archetype: a variable resource, an OutputChan, an InputChan that may refuse), and call / tail-call each other or themselves on a decreasing counter "
         "(depth <= 4, so recursion, mutual recursion and tail position all occur), a few attempts aborted after the call/return statement, plus a malformed stream (too many arguments, "
         "return on an empty stack, unknown label/procedure). Non-trivial = nesting depth >= 2 or a recursive or tail call was executed; distinct by canonical script text.")
 
@@ -41,7 +42,10 @@ def gen_case(rng, malformed=False):
         has_z = rng.random() < 0.5
         vs = [p + ".a"] + ([p + ".b"] if has_b else []) + ([p + ".z"] if has_z else [])
         pre = [[p + ".z", rng.choice([None, 0, "z0"])]] if has_z else []
-        shape[p] = {"b": has_b, "bref": b_ref, "z": has_z, "nargs": 1 + (1 if has_b else 0)}
+        # what a by-reference parameter is used for decides what it may be bound to: rw = a variable (an archetype
+        # local, or a non-local variable resource), w = an output channel, r = an input channel
+        shape[p] = {"b": has_b, "bref": b_ref, "z": has_z, "nargs": 1 + (1 if has_b else 0),
+                    "flavour": rng.choice(["rw", "rw", "w", "r"]) if b_ref else None}
         procs.append({"name": p, "label": p + ".l1", "vars": vs, "pre": pre})
 
     def args_for(q, caller):
@@ -50,10 +54,15 @@ def gen_case(rng, malformed=False):
         out = [a]
         if shape[q]["b"]:
             if shape[q]["bref"]:
-                if caller is not None and shape[caller]["bref"] and rng.random() < 0.5:
+                fl = shape[q]["flavour"]
+                if caller is not None and shape[caller]["bref"] and shape[caller]["flavour"] == fl and rng.random() < 0.5:
                     out.append(["v", caller + ".b"])          # pass the reference along
+                elif fl == "rw":
+                    out.append(rng.choice([["c", "A.x"], ["c", "A.y"], ["v", "A.e"], ["c", "&A.e"]]))
+                elif fl == "w":
+                    out.append(["v", "A.o"])
                 else:
-                    out.append(["c", rng.choice(["A.x", "A.y"])])
+                    out.append(["v", "A.i"])
             else:
                 out.append(rng.choice([["c", rng.choice([7, "s", None])]] + ([["v", caller + ".a"]] if caller else [])))
         if malformed and rng.random() < 0.3:
@@ -73,9 +82,13 @@ def gen_case(rng, malformed=False):
                 out.append(["log", ["v", p + ".z"]])
             elif r < 0.7 and sh["z"]:
                 out.append(["set", p + ".z", rng.choice([["v", p + ".a"], ["c", rng.choice([1, "w"])], ["add", ["v", p + ".a"], 10]])])
-            elif r < 0.8 and sh["bref"]:
+            elif r < 0.8 and sh["bref"] and sh["flavour"] == "rw":
                 out.append(["setref", p + ".b", ["add", ["deref", p + ".b"], 1]])
-            elif r < 0.88 and sh["bref"]:
+            elif r < 0.88 and sh["bref"] and sh["flavour"] == "rw":
+                out.append(["log", ["deref", p + ".b"]])
+            elif r < 0.88 and sh["bref"] and sh["flavour"] == "w":
+                out.append(["setref", p + ".b", rng.choice([["v", p + ".a"], ["c", "out"]])])
+            elif r < 0.88 and sh["bref"] and sh["flavour"] == "r":
                 out.append(["log", ["deref", p + ".b"]])
             elif r < 0.94 and sh["b"] and not sh["bref"]:
                 out.append(["set", p + ".b", ["c", rng.choice([0, "t"])]])
@@ -111,14 +124,20 @@ def gen_case(rng, malformed=False):
         elif r < 0.85:
             labels["A.l1"] = [["tail", p0, args_for(p0, None)]]
     watch = ["A.x", "A.y"] + [v for p in procs for v in p["vars"]]
-    case = {"procs": procs, "labels": labels, "entry": "A.l1", "locals": [["A.x", rng.choice([0, 5])], ["A.y", rng.choice([100, 0])]],
-            "watch": watch, "aborts": sorted(set(rng.randint(0, 25) for _ in range(rng.randint(0, 4)))), "maxsteps": 260}
+    ext = [{"name": "e", "kind": "local", "init": rng.choice([0, 40])}, {"name": "o", "kind": "outchan"},
+           {"name": "i", "kind": "inchan", "items": [rng.choice([61, 62, "in"]) for _ in range(rng.choice([0, 3, 8, 16, 30]))]}]
+    case = {"ext": ext, "procs": procs, "labels": labels, "entry": "A.l1", "locals": [["A.x", rng.choice([0, 5])], ["A.y", rng.choice([100, 0])]],
+            "watch": watch, "aborts": sorted(set(rng.randint(0, 25) for _ in range(rng.randint(0, 4)))), "maxsteps": 140}
     return case
 
 
 # ------------------------------------------------------------------------------------------ reference: activation records
 
 class Crash(Exception):
+    pass
+
+
+class Refused(Exception):
     pass
 
 
@@ -129,10 +148,14 @@ class Ref:
         self.case = case
         self.procs = {p["name"]: p for p in case["procs"]}
         self.glob = {l[0]: l[1] for l in case["locals"]}
+        self.extkind = {"&A." + e["name"]: ("inchan" if e["kind"] == "inchan" else e["kind"]) for e in case.get("ext", [])}
+        self.ext = {"&A." + e["name"]: _c01.init_obj(e) for e in case.get("ext", [])}
+        for e in case.get("ext", []):
+            self.glob["A." + e["name"]] = "&A." + e["name"]      # the pointer variable EnsureArchetypeRefParam creates
         self.acts = []            # [{"proc", "vars", "ret"}]
         self.pc = case["entry"]
         self.log = []
-        self.stats = {"maxdepth": 0, "recursive": 0, "tail": 0, "calls": 0}
+        self.stats = {"maxdepth": 0, "recursive": 0, "tail": 0, "calls": 0, "nonlocal_ref_reads": 0, "nonlocal_ref_writes": 0, "nonlocal_ref_refusals": 0}
 
     def lookup(self, name):
         if name in self.glob:
@@ -157,6 +180,15 @@ class Ref:
             t = d[n]
             if not isinstance(t, str):
                 raise Crash()
+            if t in self.ext:
+                try:
+                    self.stats["nonlocal_ref_reads"] += 1
+                    return _c01.obj_step(self.extkind[t], self.ext[t], "r", [], None)
+                except _c01.Crash:
+                    raise Crash()
+                except _c01.Block:
+                    self.stats["nonlocal_ref_refusals"] += 1
+                    raise Refused()
             d2, n2 = self.lookup(t); return d2[n2]
         raise ValueError(e)
 
@@ -190,6 +222,15 @@ class Ref:
                 v = self.ev(s[2]); d, n = self.lookup(s[1]); t = d[n]
                 if not isinstance(t, str):
                     raise Crash()
+                if t in self.ext:
+                    try:
+                        self.stats["nonlocal_ref_writes"] += 1
+                        _c01.obj_step(self.extkind[t], self.ext[t], "w", [], v)
+                    except _c01.Crash:
+                        raise Crash()
+                    except _c01.Block:
+                        raise Refused()
+                    continue
                 d2, n2 = self.lookup(t); d2[n2] = v
             elif k == "log":
                 self.log.append(self.ev(s[1]))
@@ -226,28 +267,31 @@ class Ref:
         out = []
         aborts = set(self.case["aborts"])
         for i in range(self.case["maxsteps"]):
-            saved = (copy.deepcopy(self.glob), copy.deepcopy(self.acts), self.pc, list(self.log))
+            saved = (copy.deepcopy(self.glob), copy.deepcopy(self.acts), self.pc, list(self.log), copy.deepcopy(self.ext))
             try:
                 if self.pc not in self.case["labels"]:
                     raise Crash()
                 r = self.exec(self.case["labels"][self.pc])
+            except Refused:
+                r = "refused"
             except Crash:
                 self.log = saved[3]           # what a dying attempt logged is not compared
-                out.append((2, None, None, None)); return out, False
+                out.append((2, None, None, None, None)); return out, False
             if r == "done":
                 return out, False
             if r == "cont":
                 self.log = saved[3]
-                out.append((2, None, None, None)); return out, False
-            if i in aborts:
-                self.glob, self.acts, self.pc, self.log = saved
+                out.append((2, None, None, None, None)); return out, False
+            if i in aborts or r == "refused":
+                self.glob, self.acts, self.pc, self.log, self.ext = saved
                 o = 1
             else:
                 o = 0
             live = {}
             for a in self.acts:
                 live.update(a["vars"])         # innermost activation of a procedure wins
-            out.append((o, self.pc, len(self.acts), dict(self.glob, **live)))
+            out.append((o, self.pc, len(self.acts), dict(self.glob, **live),
+                        [canon(_c01.obj_snap(self.extkind["&A." + e["name"]], self.ext["&A." + e["name"]], [])) for e in self.case.get("ext", [])]))
         return out, True
 
 
@@ -295,14 +339,18 @@ def to_coq(case, res):
     lnames = sorted(case["labels"])
     table = "mkTable %s %s" % (vlib.coq_list(procs), vlib.coq_list([vlib.coq_str(l) for l in lnames]))
     labels = vlib.coq_list(["(%s, %s)" % (vlib.coq_str(l), vlib.coq_list([coq_stmt(s) for s in case["labels"][l]])) for l in lnames])
-    script = "mkScript (%s) %s %s %s %s %s %s" % (
+    script = "mkScript (%s) %s %s %s %s %s %s %s %s" % (
         table, labels, vlib.coq_str(case["entry"]),
-        vlib.coq_list(["(%s, %s)" % (vlib.coq_str(l[0]), coq_val(canon(l[1]))) for l in case["locals"]]),
+        vlib.coq_list(["(%s, %s)" % (vlib.coq_str(l[0]), coq_val(canon(l[1]))) for l in case["locals"]] +
+                      ["(%s, VS %s)" % (vlib.coq_str("A." + e["name"]), vlib.coq_str("&A." + e["name"])) for e in case.get("ext", [])]),
         vlib.coq_list([vlib.coq_str(w) for w in case["watch"]]),
-        vlib.coq_list([vlib.coq_nat(a) for a in case["aborts"]]), vlib.coq_nat(case["maxsteps"]))
+        vlib.coq_list([vlib.coq_nat(a) for a in case["aborts"]]), vlib.coq_nat(case["maxsteps"]),
+        vlib.coq_list(["(%s, %s)" % (vlib.coq_str("&A." + e["name"]), _c01.coq_node(e)) for e in case.get("ext", [])]),
+        vlib.coq_list(["(%s, [])" % vlib.coq_str("&A." + e["name"]) for e in case.get("ext", [])]))
     obs = []
     for a in res.get("attempts") or []:
-        vals = [coq_val(canon(a.get("pc"))), coq_val(canon(a.get("stack")))] + [coq_val(canon(T(*v))) for v in (a.get("vars") or [])]
+        vals = [coq_val(canon(a.get("pc"))), coq_val(canon(a.get("stack")))] + [coq_val(canon(T(*v))) for v in (a.get("vars") or [])] + \
+               [coq_val(canon(x)) for x in (a.get("ext") or [])]
         obs.append("(%s, %s)" % (vlib.coq_Z(a["out"]), vlib.coq_list(vals)))
     lg = vlib.coq_list([coq_val(canon(x)) for x in res.get("log") or []])
     return "(%s,\n  (%s, %s))" % (script, vlib.coq_list(obs), lg)
@@ -324,7 +372,7 @@ def oracle(case, res):
         return [("harness-error:" + res["err"][:40], "harness reported " + res["err"])], ref.stats
     n = min(len(exp), len(got))
     for i in range(n):
-        eo, epc, edepth, evars = exp[i]
+        eo, epc, edepth, evars, eext = exp[i]
         g = got[i]
         if g["out"] != eo:
             fails.append(("outcome-%d-instead-of-%d:%s" % (g["out"], eo, cls), "attempt %d: expected outcome %d, implementation did %d (%s)" % (i, eo, g["out"], g.get("err", ""))))
@@ -337,6 +385,9 @@ def oracle(case, res):
         depth = len(g["stack"]["t"]) if isinstance(g["stack"], dict) else -1
         if depth != edepth:
             fails.append(("stack-depth:" + cls, "attempt %d: stack has %d frames, %d activations are live" % (i, depth, edepth)))
+            return fails, ref.stats
+        if canon(T(*(g.get("ext") or [])))["t"] != (eext or []):
+            fails.append(("nonlocal-resource-through-reference:" + cls, "attempt %d: non-local resources are %s, expected %s" % (i, json.dumps(g.get("ext")), json.dumps(eext))))
             return fails, ref.stats
         for w, v in zip(case["watch"], g["vars"]):
             if w in evars and (not v or canon(v[0]) != canon(evars[w])):
@@ -378,13 +429,14 @@ def run(ctx):
         ctx.breaks.append({"what": "harness c04 failed (rc=%d, %d/%d results)" % (rc, len(byid), len(cases)), "detail": err[-2000:]})
         return
     dist = {"plain": 0, "nested": 0, "recursion": 0, "tailcall": 0}
-    tot = {"calls": 0, "tail": 0, "recursive": 0, "maxdepth": 0, "aborted_attempts": 0, "crashes": 0}
+    tot = {"calls": 0, "tail": 0, "recursive": 0, "maxdepth": 0, "aborted_attempts": 0, "crashes": 0,
+           "nonlocal_ref_reads": 0, "nonlocal_ref_writes": 0, "nonlocal_ref_refusals": 0}
     for c in cases:
         r = byid[c["id"]]
         c["_res"] = r
         fails, stats = oracle(c, r)
         dist[call_class(stats)] += 1
-        for k in ("calls", "tail", "recursive"):
+        for k in ("calls", "tail", "recursive", "nonlocal_ref_reads", "nonlocal_ref_writes", "nonlocal_ref_refusals"):
             tot[k] += stats[k]
         tot["maxdepth"] = max(tot["maxdepth"], stats["maxdepth"])
         tot["aborted_attempts"] += sum(1 for a in (r.get("attempts") or []) if a["out"] == 1)
@@ -433,9 +485,9 @@ MANIFEST = {
     "technique": "Coq proof (refinement of Call/Return/TailCall to the PlusCal stack machine, induction over the bracket structure of call traces) "
                  "+ differential correspondence model vs real MPCalContexts over hand-built procedure tables",
     "text": ("Theorems in coq/Properties/C04.v, closed under the global context: call_refines, return_refines, tailcall_refines (the runtime's Call/Return/TailCall on any store, table and "
-             "argument list take exactly the specification's step), run_refines (any event list), call_defined / return_defined with live_preserved_* (conversely, where the specification step is defined the runtime does not panic), activation_isolation (any well-bracketed trace with recursion, mutual recursion, tail calls "
+             "argument list take exactly the specification's step), run_refines (any event list), call_defined / return_defined / tailcall_defined with live_preserved_* (conversely, where the specification step is defined the runtime does not panic), activation_isolation (any well-bracketed trace with recursion, mutual recursion, tail calls "
              "and writes through references: after the matching return every variable outside the reference set has its pre-call value, .pc is the return label, .stack the pre-call stack), "
-             "abort_between (any events inside a section: abort restores every variable and the stack). Two defects repaired in /repo (recursion, tail call)."),
+             "abort_between (any events inside a section: abort restores every variable and the stack); by-reference parameters bound to non-local resources (archetype ref parameters with mapping macros): mapped_ref_access_is_a_resource_operation, calls_leave_nonlocal_resources_alone, activation_isolation_mapped_refs, abort_between_mapped_refs (C01's family of resources as the non-local part of the state). Two defects repaired in /repo (recursion, tail call)."),
     "level_note": ("Trusted: Coq kernel; the hand-written model (tie = differential execution of generated call graphs incl. aborts and malformed programs: 250 quick / 5000 thorough scripts); "
                    "the Scala code generator is absent offline, so tables are hand-built following ProcedureSpaghetti.go."),
 }
